@@ -252,7 +252,7 @@ class Printer {
       case 'include': this.open('include', n, () => this.attr('src', n.src), []); break
       case 'import': this.open('import', n, () => this.attr('src', n.src), []); break
       case 'slot':
-        this.open('slot', n, () => { this.controlAttrs(n); if (n.name !== undefined) this.attr('name', n.name); for (const [k, v] of n.values) this.attr(k, v) }, [])
+        this.open('slot', n, () => { this.controlAttrs(n); if (n.name !== undefined) this.attr('name', n.name); for (const [k, v] of n.values) this.attr(k, v); for (const a of n.attrs || []) this.attr(this.attrName(a), a.v, { attr: a }) }, [])
         break
       case 'wxs':
         if (n.src !== undefined) this.open('wxs', n, () => { this.attr('module', n.module); this.attr('src', n.src) }, [])
@@ -433,7 +433,20 @@ function render(files, scripts, path, data, opts) {
       case 'slot': {
         const name = n.name === undefined ? '' : Y(evalValue(n.name, ctx.env()))
         const values = n.values.map(([k, v]) => [dashToCamel(k), v === undefined ? undefined : evalValue(v, ctx.env())])
-        return [{ t: 'slot', name, values }]
+        // a <slot> carries dataset, marks, events and an id through their own channels (everything else is a slot value)
+        const attrs = []
+        for (const a of n.attrs || []) {
+          const val = a.v === undefined ? undefined : evalValue(a.v, ctx.env())
+          switch (a.f) {
+            case 'id': attrs.push(['id', null, val]); break
+            case 'data-': attrs.push(['dataset', dashToCamel(a.name.toLowerCase()), a.v === undefined ? true : val]); break
+            case 'data:': attrs.push(['dataset', a.name, a.v === undefined ? true : val]); break
+            case 'mark': attrs.push(['mark', a.name, a.v === undefined ? true : val]); break
+            case 'event': attrs.push(['event', a.name, a.v === undefined ? '' : val, { catch: a.prefix.includes('catch'), mut: a.prefix.includes('mut-bind'), capture: a.prefix.startsWith('capture-') }]); break
+            default: throw new Error('family on a slot element: ' + a.f)
+          }
+        }
+        return [{ t: 'slot', name, values, attrs }]
       }
       case 'include': {
         const target = resolve(ctx.file, n.src)
@@ -554,7 +567,7 @@ function normActual(nodes) {
   // actual: output of rt_record.flatten(nodes, true)
   return nodes.map((n) => {
     if (n.t === 'text') return { t: 'text', text: n.text }
-    if (n.t === 'slot') return { t: 'slot', name: n.name, values: n.values }
+    if (n.t === 'slot') return { t: 'slot', name: n.name, values: n.values, attrs: (n.attrs || []).map((a) => (a[0] === 'event' ? ['event', a[1], a[2], { catch: a[3].catch, mut: a[3].mut, capture: a[3].capture }] : [a[0], a[1], a[2]])) }
     if (n.t === 'virtual') return { t: 'virtual', slot: n.slot, children: normActual(n.children) }
     const attrs = n.attrs.map((a) => {
       if (a[0] === 'event') return ['event', a[1], a[2], { catch: a[3].catch, mut: a[3].mut, capture: a[3].capture }]
@@ -585,7 +598,7 @@ function showValue(v, depth = 0) {
 function showTree(tree) {
   return tree.map((n) => {
     if (n.t === 'text') return JSON.stringify(n.text)
-    if (n.t === 'slot') return `<slot name=${JSON.stringify(n.name)} ${n.values.map(([k, v]) => k + '=' + showValue(v)).join(' ')}>`
+    if (n.t === 'slot') return `<slot name=${JSON.stringify(n.name)} ${n.values.map(([k, v]) => k + '=' + showValue(v)).join(' ')}${(n.attrs || []).length ? ' | ' + n.attrs.map((a) => `${a[0]}${a[1] === null ? '' : ':' + a[1]}=${showValue(a[2])}${a[3] ? JSON.stringify(a[3]) : ''}`).join(' ') : ''}>`
     if (n.t === 'virtual') return `<virtual slot=${showValue(n.slot)}>${showTree(n.children)}</virtual>`
     const attrs = n.attrs.map((a) => `${a[0]}${a[1] === null ? '' : ':' + a[1]}=${showValue(a[2])}${a[3] ? JSON.stringify(a[3]) : ''}`).join(' ')
     const gen = Object.keys(n.generics || {}).length ? ' generics=' + JSON.stringify(n.generics) : ''
@@ -610,7 +623,7 @@ function sameTree(a, b) {
     const x = a[i]; const y = b[i]
     if (x.t !== y.t) return false
     if (x.t === 'text') { if (x.text !== y.text) return false; continue }
-    if (x.t === 'slot') { if (x.name !== y.name || !sameValue(x.values, y.values)) return false; continue }
+    if (x.t === 'slot') { if (x.name !== y.name || !sameValue(x.values, y.values) || !sameValue(x.attrs || [], y.attrs || [])) return false; continue }
     if (x.t === 'virtual') { if (!Object.is(x.slot, y.slot) || !sameTree(x.children, y.children)) return false; continue }
     if (x.tag !== y.tag || !sameValue(x.generics || {}, y.generics || {}) || !sameValue(x.slot, y.slot)) return false
     if (!sameValue(x.attrs, y.attrs)) return false
